@@ -57,7 +57,9 @@ func loopEntry[T any](x T) T                     { return x }
 func exactCmpIF(i int64, f float64) int          { return 0 }
 func errIsCtx(err error) bool                    { return false }
 func sameSlice[T any](a, b []T) bool             { return len(a) == len(b) }
-func sameVal[T any](a, b T) bool                  { return true }
+func sameVal[T any](a, b T) bool                 { return true }
+func sameBase[T any](a, b []T) bool              { return true }
+func freshBase[T any](a []T) bool                { return true }
 func uninterp[T any](name string, args ...any) T { var z T; return z }
 func outCount() int                              { return 0 }
 func outFirst() any                              { return nil }
@@ -198,3 +200,52 @@ func outLast() any                               { return nil }
 //@ props C17 C12
 //@ pure
 //@ ensures [C17] three-way: r0 >= -1 && r0 <= 1
+
+// ---------------------------------------------------------------------------
+// printing: String() and MarshalJSON() of a type use one and the same layout,
+// so the JSON text is the quoted String() text (C18)
+
+//@ func (*Date).String
+//@ props C18 C16
+//@ atcall Format assert [C18 C16] own-layout: arg_layout == dateFormat && arg_recv == d.Time
+
+//@ func (*Date).MarshalJSON
+//@ props C18
+//@ atcall AppendFormat assert [C18] same-layout-as-String: arg_layout == dateFormat && arg_recv == d.Time
+//@ ensures [C18] no-error: r1 == nil
+
+//@ func (*Time).String
+//@ props C18 C16
+//@ atcall Format assert [C18 C16] own-layout: arg_layout == timeFormat && arg_recv == t.Time
+
+//@ func (*Time).MarshalJSON
+//@ props C18
+//@ atcall AppendFormat assert [C18] same-layout-as-String: arg_layout == timeFormat && arg_recv == t.Time
+//@ ensures [C18] no-error: r1 == nil
+
+//@ func (*TimeTZ).String
+//@ props C18 C16
+//@ atcall Format assert [C18 C16] own-layout: arg_layout == timeTZOutputFormat && arg_recv == t.Time
+
+//@ func (*TimeTZ).MarshalJSON
+//@ props C18
+//@ atcall AppendFormat assert [C18] same-layout-as-String: arg_layout == timeTZOutputFormat && arg_recv == t.Time
+//@ ensures [C18] no-error: r1 == nil
+
+//@ func (*Timestamp).String
+//@ props C18 C16
+//@ atcall Format assert [C18 C16] own-layout: arg_layout == timestampFormat && arg_recv == ts.Time
+
+//@ func (*Timestamp).MarshalJSON
+//@ props C18
+//@ atcall AppendFormat assert [C18] same-layout-as-String: arg_layout == timestampFormat && arg_recv == ts.Time
+//@ ensures [C18] no-error: r1 == nil
+
+//@ func (*TimestampTZ).String
+//@ props C18 C16
+//@ atcall Format assert [C18 C16] own-layout: arg_layout == timestampTZOutputFormat && arg_recv == ts.Time
+
+//@ func (*TimestampTZ).MarshalJSON
+//@ props C18
+//@ atcall AppendFormat assert [C18] same-layout-as-String: arg_layout == timestampTZOutputFormat && arg_recv == ts.Time
+//@ ensures [C18] no-error: r1 == nil
